@@ -28,9 +28,15 @@ fn pll() -> std::io::Result<std::num::NonZeroUsize> {
 
 #[cfg(feature = "std")]
 pub use std::sync::mpsc::channel;
+/// what `std::sync` is redirected to in the copy of the sources compiled by engine S
+#[cfg(feature = "std")]
+pub mod sync {
+    pub use std::sync::*;
+}
+/// what `std::thread` is redirected to: std's, with the parallelism override
 #[cfg(feature = "std")]
 pub mod thread {
-    pub use std::thread::{scope, Scope, ScopedJoinHandle};
+    pub use std::thread::*;
     pub fn available_parallelism() -> std::io::Result<std::num::NonZeroUsize> {
         super::pll()
     }
@@ -113,10 +119,83 @@ mod sh {
             log(if r.is_ok() { "recv" } else { "disc" });
             r
         }
+        pub fn try_recv(&self) -> Result<T, shuttle::sync::mpsc::TryRecvError> {
+            let r = self.0.try_recv();
+            match &r {
+                Ok(_) => log("recv"),
+                Err(shuttle::sync::mpsc::TryRecvError::Disconnected) => log("disc"),
+                Err(_) => log("empty"),
+            }
+            r
+        }
+        pub fn recv_timeout(&self, d: std::time::Duration) -> Result<T, shuttle::sync::mpsc::RecvTimeoutError> {
+            let r = self.0.recv_timeout(d);
+            match &r {
+                Ok(_) => log("recv"),
+                Err(shuttle::sync::mpsc::RecvTimeoutError::Disconnected) => log("disc"),
+                Err(_) => log("timeout"),
+            }
+            r
+        }
+        pub fn iter(&self) -> Iter<'_, T> {
+            Iter(self)
+        }
+        pub fn try_iter(&self) -> TryIter<'_, T> {
+            TryIter(self)
+        }
+    }
+    pub struct Iter<'a, T>(&'a Receiver<T>);
+    impl<'a, T> Iterator for Iter<'a, T> {
+        type Item = T;
+        fn next(&mut self) -> Option<T> {
+            self.0.recv().ok()
+        }
+    }
+    pub struct TryIter<'a, T>(&'a Receiver<T>);
+    impl<'a, T> Iterator for TryIter<'a, T> {
+        type Item = T;
+        fn next(&mut self) -> Option<T> {
+            self.0.try_recv().ok()
+        }
+    }
+    pub struct IntoIter<T>(Receiver<T>);
+    impl<T> Iterator for IntoIter<T> {
+        type Item = T;
+        fn next(&mut self) -> Option<T> {
+            self.0.recv().ok()
+        }
+    }
+    impl<T> IntoIterator for Receiver<T> {
+        type Item = T;
+        type IntoIter = IntoIter<T>;
+        fn into_iter(self) -> IntoIter<T> {
+            IntoIter(self)
+        }
+    }
+    impl<'a, T> IntoIterator for &'a Receiver<T> {
+        type Item = T;
+        type IntoIter = Iter<'a, T>;
+        fn into_iter(self) -> Iter<'a, T> {
+            Iter(self)
+        }
+    }
+
+    /// what `std::sync` is redirected to in the copy of the sources compiled by engine S: shuttle's
+    /// primitives (every lock / atomic / condvar operation is a scheduling point of the explorer),
+    /// with the logging channel wrappers for mpsc
+    pub mod sync {
+        pub use shuttle::sync::{Arc, Barrier, BarrierWaitResult, Condvar, LockResult, Mutex, MutexGuard, Once, OnceState, PoisonError, RwLock, RwLockReadGuard, RwLockWriteGuard, TryLockError, TryLockResult, WaitTimeoutResult, Weak};
+        pub mod atomic {
+            pub use shuttle::sync::atomic::*;
+        }
+        pub mod mpsc {
+            pub use super::super::{channel, IntoIter, Iter, Receiver, Sender, TryIter};
+            pub use shuttle::sync::mpsc::{RecvError, RecvTimeoutError, SendError, TryRecvError};
+        }
     }
 
     pub mod thread {
-        pub use shuttle::thread::ScopedJoinHandle;
+        pub use shuttle::thread::{current, panicking, park, sleep, spawn, yield_now, Builder, JoinHandle, Result, ScopedJoinHandle, Thread, ThreadId};
         #[repr(transparent)]
         pub struct Scope<'scope, 'env: 'scope>(shuttle::thread::Scope<'scope, 'env>);
         impl<'scope, 'env> Scope<'scope, 'env> {
@@ -151,4 +230,4 @@ mod sh {
     }
 }
 #[cfg(feature = "shuttle")]
-pub use sh::{channel, thread, Receiver, Sender};
+pub use sh::{channel, sync, thread, Receiver, Sender};
